@@ -265,7 +265,8 @@ struct Slot {
     volatile int64_t chunk;
     volatile int64_t idx;
     volatile int64_t phase; // 0 idle, 1 running a case, 2 finished normally
-    char             desc[4000];
+    char             desc[3400];
+    char             replay[600]; // optional: replay argument published together with the description
 };
 struct Shared {
     std::atomic<int64_t> next_chunk;
@@ -312,11 +313,14 @@ struct Ctx {
     inline bool past_only() const { return only_idx >= 0 && idx > only_idx; }
     // in isolation mode the case text is published *before* the case runs, so the parent has it if we die
     inline bool want_desc() const { return isolated; }
-    void        describe(const std::string &d) {
+    void        describe(const std::string &d, const std::string &replay = "") {
         if (slot) {
             size_t n = std::min(d.size(), sizeof(slot->desc) - 1);
             memcpy(slot->desc, d.data(), n);
             slot->desc[n] = 0;
+            n = std::min(replay.size(), sizeof(slot->replay) - 1);
+            memcpy(slot->replay, replay.data(), n);
+            slot->replay[n] = 0;
         }
     }
 };
@@ -562,6 +566,7 @@ class Pool {
         s.idx   = -1;
         s.phase = 0;
         s.desc[0] = 0;
+        s.replay[0] = 0;
         std::string rf  = opt.tmpdir + "/" + opt.tag + ".iso.res";
         std::string log = opt.tmpdir + "/" + opt.tag + ".iso.log";
         unlink(rf.c_str());
@@ -614,6 +619,7 @@ class Pool {
     }
 
     PoolOptions opt;
+    int         cur_stage = 0;
 
   private:
     Shared *sh;
@@ -667,7 +673,10 @@ class Pool {
         Acc         part;
         std::string desc, crash;
         bool        ok = run_isolated(c, i, fn, part, desc, crash, was_hang ? opt.hang_confirm_s : opt.hang_confirm_s);
-        std::string rp = "chunk=" + std::to_string(c) + " idx=" + std::to_string(i);
+        std::string rp = "stage=" + std::to_string(cur_stage) + " chunk=" + std::to_string(c) + " idx=" + std::to_string(i);
+        if (sh->slots[63].replay[0] != 0) {
+            rp = sh->slots[63].replay;
+        }
         if (ok) {
             // the case passes alone: merge its verdict. A crash that needs the preceding cases of the chunk is
             // still a real observation (state leaked between cases) - re-run the chunk prefix to decide.
